@@ -157,8 +157,13 @@ def run(facts, serde_facts, tier):
         if not ({"self.quotient.0", "self.quotient.1"} <= rd):
             ok = False
             msg = "delete_nodes_witness: the new unification lists are not built from the old ones"
-    add("COVER delete_nodes_witness: pending unifications are filtered jointly and renumbered", dn, ok, msg,
-        recognised=recognised)
+    if recognised:
+        add("COVER delete_nodes_witness: pending unifications are filtered jointly and renumbered", dn, ok, msg)
+    else:
+        # another idiom (pairs collected and unzipped, iterator chains, ...): that both columns keep or drop a pair
+        # together is decided semantically (spec lax_delete_nodes_witness: the columns stay position-aligned)
+        inst.append({"name": "COVER delete_nodes_witness: pending unifications (decided by the column-alignment spec)",
+                     "sp": dn["sp"], "props": ["C11"], "verdict": "idiom not recognised; decided semantically"})
     # returned map = map used
     tail = dn["body"].get("tail")
     ret = place_str(tail) if tail is not None else None
